@@ -5,6 +5,7 @@ import (
 	"fmt"
 	"os"
 	"reflect"
+	"strings"
 	"testing"
 
 	"github.com/insomniacslk/dhcp/rfc1035label"
@@ -31,6 +32,11 @@ var c19rt = newChk("C19", "roundtrip",
 	func(rec *obs.Rec, names []string) *obs.Fail {
 		l := &rfc1035label.Labels{Labels: names}
 		enc := l.ToBytes()
+		// another list is encoded and decoded in between: the bytes returned for this one stay as returned
+		decoy := &rfc1035label.Labels{Labels: []string{"decoy.example.org", "x.decoy.example.org", strings.Repeat("d", 63) + ".example"}}
+		if dl, err := rfc1035label.FromBytes(decoy.ToBytes()); err == nil {
+			_ = dl.ToBytes()
+		}
 		want := reflabel.Encode(names)
 		if !bytes.Equal(enc, want) {
 			return obs.Failf("C19/encode", fmt.Sprintf("RFC 1035 wire form %x", clipb(want)), "%x", clipb(enc))
